@@ -45,7 +45,7 @@ BASE = dict(ntasks=(1, 6), nseg=(1, 3), nleaf=(0, 3), nkinds=(1, 2), depth=1,
             p_raise=0.0, p_errleaf=0.0, p_lazyfail=0.0, p_bad=0.0, p_catch=0.0,
             p_sync=0.0, p_spawn=0.0, ctx_types=(), p_ctx=0.0, nvars=0, p_read=0.0, faulty=(),
             ncalls=1, convs=("call", "value"), p_result=0.3, containers=("Tup", "Lst", "Dct"),
-            p_dedup=0.0, p_dirty=0.0, ndfn=(1, 2), nkeys=2, p_ival=0.0)
+            p_dedup=0.0, p_dirty=0.0, ndfn=(1, 2), nkeys=2, p_ival=0.0, p_raiseb=0.0)
 
 PROFILES = {
     "plain": dict(BASE),
@@ -88,6 +88,9 @@ PROFILES = {
     "cleanup": dict(BASE, ntasks=(3, 8), ctx_types=("cleanup", "cleanup", "async"), p_ctx=0.6, p_result=0.7, p_sync=0.1, p_raise=0.1, p_catch=0.3),
     "ival": dict(BASE, ntasks=(2, 7), nkinds=(1, 3), p_ival=0.5, p_share=0.1, flush_modes=("ok", "ok", "itemerr", "skip", "raise"), p_catch=0.3,
                  p_sync=0.1),
+    "basefaults": dict(BASE, p_raise=0.25, p_raiseb=0.6, p_catch=0.6, p_share=0.1, p_sync=0.1, ctx_types=("async",), p_ctx=0.2,
+                       flush_modes=("ok", "itemerr")),
+    "spawnsync": dict(BASE, ntasks=(3, 8), p_spawn=0.35, p_sync=0.35, p_task=0.4, p_item=0.3, p_catch=0.3, p_raise=0.08),
     "everything": dict(BASE, ntasks=(2, 8), nkinds=(1, 3), bases=(0, 1), p_share=0.1, p_reyield=0.05,
                        flush_modes=("ok", "ok", "itemerr", "skip", "raise"), p_raise=0.08, p_errleaf=0.04, p_bad=0.03,
                        p_catch=0.35, p_sync=0.15, ctx_types=("async", "override"), p_ctx=0.35, nvars=1, p_read=0.3),
@@ -107,6 +110,7 @@ class Gen(object):
         self.nk = rng.randint(*prof["nkinds"])
         self.created = []        # task ids allocated so far (for sharing)
         self.sync_targets = set()
+        self.spawn_pool = []     # tasks created by a spawn op and never named again so far: candidates for a later .value()
         self.dedup_inst = []     # instance ids of deduplicated calls
         self.dfn_bodies = {}
         self.predefined = {}
@@ -217,6 +221,12 @@ class Gen(object):
                         open_ctx.append(c)
                         ops.append(op("enter", c))
                 elif p["p_sync"] and x < p["p_ctx"] + p["p_sync"]:
+                    pool = [u for u in self.spawn_pool if u > t]
+                    if pool and r.random() < 0.5:
+                        u = r.choice(pool)            # synchronous .value() on a task some other task created
+                        self.spawn_pool.remove(u)
+                        ops.append(op("sync", u))
+                        continue
                     u = self.alloc()
                     if u is not None:
                         self.sync_targets.add(u)
@@ -235,14 +245,16 @@ class Gen(object):
                         self.sync_targets.add(u)   # never shared as a T leaf
                         ops.append(op("spawn", u))
                         spawned.append(u)
+                        if p["p_sync"]:
+                            self.spawn_pool.append(u)
             last = k == nseg
             if not last and r.random() < p["p_raise"] * 0.5:
-                segs.append(seg(ops, term("raise")))
+                segs.append(seg(ops, term("raiseb" if r.random() < p["p_raiseb"] else "raise")))
                 break
             if last:
                 x = r.random()
                 if x < p["p_raise"]:
-                    segs.append(seg(ops, term("raise")))
+                    segs.append(seg(ops, term("raiseb" if r.random() < p["p_raiseb"] else "raise")))
                 elif x < p["p_raise"] + p["p_result"]:
                     segs.append(seg(ops, term("result")))
                 elif spawned and r.random() < 0.5:
